@@ -150,3 +150,30 @@ Proof.
   cbn [length app] in H. rewrite H; [|destruct ls; reflexivity|exact Hlen].
   cbn [bind]. destruct ls; reflexivity.
 Qed.
+
+(* ---- try_push_slice ------------------------------------------------------------------------------------------ *)
+
+Theorem try_push_slice_spec b st (o : list N) : brepr b st -> ast_ok st ->
+  (63 < length (snd st) + length o -> try_push_slice b o = Err LabelTooLong) /\
+  (length (snd st) + length o <= 63 -> 255 < awire st + length o -> try_push_slice b o = Err NameTooLong) /\
+  (length (snd st) + length o <= 63 -> awire st + length o <= 255 ->
+   exists b', try_push_slice b o = Ok b' /\ brepr b' (fst st, snd st ++ o) /\ ast_ok (fst st, snd st ++ o)).
+Proof.
+  intros Hb (Hds & Hcur & Hw). pose proof (brepr_wire_len b st Hb) as Hlen.
+  destruct Hb as (Ewire & Eoffs & Estart & Elen). destruct st as [ds cur]. cbn [fst snd] in *.
+  unfold try_push_slice, try_extend. change (N.to_nat max_label_len) with 63. change max_wire_len with 255.
+  rewrite Elen, Nat2N.id, Hlen.
+  split; [|split].
+  - intros H. assert (E : (63 <? length cur + length o) = true) by (apply Nat.ltb_lt; exact H). rewrite E. reflexivity.
+  - intros H1 H2. assert (E : (63 <? length cur + length o) = false) by (apply Nat.ltb_ge; exact H1). rewrite E.
+    assert (E2 : (255 <? awire (ds, cur) + length o) = true) by (apply Nat.ltb_lt; exact H2). rewrite E2. reflexivity.
+  - intros H1 H2. assert (E : (63 <? length cur + length o) = false) by (apply Nat.ltb_ge; exact H1). rewrite E.
+    assert (E2 : (255 <? awire (ds, cur) + length o) = false) by (apply Nat.ltb_ge; exact H2). rewrite E2.
+    unfold u8_add. rewrite N.mod_small by lia.
+    assert (E3 : (255 <? N.of_nat (length cur) + N.of_nat (length o))%N = false) by (apply N.ltb_ge; lia). rewrite E3.
+    eexists. split; [reflexivity|]. split.
+    + unfold brepr. cbn [b_wire b_offsets b_label_start b_label_len fst snd].
+      rewrite Ewire, <- app_assoc. cbn [app]. repeat split; try assumption.
+      rewrite app_length. lia.
+    + unfold ast_ok, awire in *. cbn [fst snd] in *. rewrite app_length. repeat split; try assumption; lia.
+Qed.
